@@ -67,9 +67,7 @@ theorem str_refines {s v p m} {lw : Nat} {l : List Nat} (F : Focus s v p (.str l
       have hplug1 := (subst_good p s v _ _ (.bytes []) F.good F.res g0 (by rw [← hb1']; exact hsm1)).2.2.2.2
       by_cases hov : 256 ^ lw ≤ sb.length
       · simp only [hov, if_true]
-        refine ⟨m1, ?_, by simp [composite]⟩
-        unfold listInsertAll
-        simp only [hrd1, List.length_map, Nat.zero_add, hov, if_true, Nat.lt_irrefl, if_false, Nat.not_lt_zero, unitRes_err]
+        exact Or.inl rfl
       · simp only [hov, if_false]
         intro hroom
         have hpl1 := plug_length p s v _ _ F.good F.res (encode (.str lw) (.bytes sb))
